@@ -794,8 +794,9 @@ def check_C05(run):
     run.cov["traces_validated_against_impl"] = len(rq) + len(pj)
     run.sample({"request": rq[0], "implementation": impl[0][:300], "specification": spec[0][:200]})
     run.sample({"script": pj[0], "specification": pso[0][:200]})
-    run.cov["explanation"] = ("moves_cmd lemmas proved on the model (one key pushed per move made, unknown tokens leave position and history "
-                              "unchanged); agreement with the specification's reading of token lists checked above")
+    run.cov["explanation"] = ("proof on the model: the token matcher is the specification's denotation and moves_cmd follows UciSpec.play_tokens for every token list "
+                              "(C05_moves_follow_the_specification, on C01's equivalence and C09's injectivity, under the geometry invariant TokGeo); one key pushed per move made, "
+                              "unknown tokens leave position and history unchanged; the tie of the model to uci/moves.rs and uci/position.rs is the comparison above")
 
 
 # ====================================================================== C17
